@@ -90,7 +90,10 @@ def main():
         res["checks"] = {}
         for c in checks:
             t0 = time.time()
-            rc, out = sh(f"KAIRA_SRC={wt} ./check {c} --tier {a.tier}", cwd=ROOT, env=dict(env, KAIRA_SRC=wt), timeout=7200)
+            evd = f"/tmp/ev_evidence_{name}"
+            os.makedirs(evd, exist_ok=True)
+            rc, out = sh(f"KAIRA_SRC={wt} ./check {c} --tier {a.tier}", cwd=ROOT, env=dict(env, KAIRA_SRC=wt, VERIF_EVIDENCE_DIR=evd), timeout=7200)
+            sh(f"rm -rf {evd}")
             viol = [l for l in out.splitlines() if l.startswith("VIOLATION")]
             keys = [l.strip() for l in out.splitlines() if l.startswith("  key=")]
             res["checks"][c] = {"rc": rc, "violation_lines": len(viol), "first_keys": [k[:260] for k in keys[:3]], "wall": round(time.time() - t0, 1)}
